@@ -105,6 +105,61 @@ theorem replay_tag_rule (cap iv start : Nat) (pre mid : List Call) (e : Sig) (τ
   rw [hres, huni p hp hs]
   simp [tagConflict, or_assoc]
 
+/-- No miss, FULL STRENGTH for tagged use (the UDP path: tag = source address).  From ANY cache state
+    in which `e` is stored in neither generation: `(e, tag0)` records it at `t0` and becomes its OWNER;
+    then ANY calls `mid` inside `[t0, t0 + interval]` carrying fewer than `capacity` distinct other
+    signatures — they may present `e` again under ANY tags, across any rotations by size or by time —
+    then `(e, tag1)` at `t1 ∈ [t0, t0 + interval]`: the answer is EXACTLY the tag rule against the
+    owner's tag.  A presenter whose tag differs from the owner's is reported every time, however often
+    it retries; the owner's own retransmissions are never reported.
+    (False for the code before the repair "fix: replay cache keeps the tag of the first sighting across
+    a rotation": a foreign presenter's tag overwrote the owner's after a rotation — regression example
+    below and corpus/C06/owner-tag-overwritten-after-rotation.json.) -/
+theorem replay_no_miss_owner_tag (c : Cache) (mid : List Call) (e : Sig) (tag0 tag1 : Tag) (t0 t1 : Nat)
+    (hfresh : Fresh c e)
+    (hmid : ∀ p ∈ mid, t0 ≤ p.time ∧ p.time ≤ t0 + c.iv) (ht0 : t0 ≤ t1) (ht : t1 ≤ t0 + c.iv)
+    (hfew : FewOthers c.cap e mid) :
+    (step (run (step c e tag0 t0).1 mid) e tag1 t1).2 = tagConflict tag0 tag1 :=
+  no_miss_owner c.cap c.iv e t0 c rfl rfl hfresh tag0 mid tag1 t1 hmid ht0 ht hfew
+
+/-- The same from a fresh cache after any pre-history that never presented `e`. -/
+theorem replay_no_miss_owner_tag_first_seen (cap iv start : Nat) (pre mid : List Call) (e : Sig)
+    (tag0 tag1 : Tag) (t0 t1 : Nat) (hpre : ∀ p ∈ pre, p.sig ≠ e)
+    (hmid : ∀ p ∈ mid, t0 ≤ p.time ∧ p.time ≤ t0 + iv) (ht0 : t0 ≤ t1) (ht : t1 ≤ t0 + iv)
+    (hfew : FewOthers cap e mid) :
+    (step (run (init cap iv start) (pre ++ ⟨e, tag0, t0⟩ :: mid)) e tag1 t1).2 = tagConflict tag0 tag1 := by
+  have hrun : run (init cap iv start) (pre ++ ⟨e, tag0, t0⟩ :: mid)
+      = run (step (run (init cap iv start) pre) e tag0 t0).1 mid := by
+    rw [run_append]; simp [run]
+  have hcap : (run (init cap iv start) pre).cap = cap ∧ (run (init cap iv start) pre).iv = iv := by
+    simpa [init] using run_cap (init cap iv start) pre
+  have hprov : Prov pre (run (init cap iv start) pre) := by
+    simpa using prov_run [] (init cap iv start) pre (prov_init cap iv start)
+  have hfresh : Fresh (run (init cap iv start) pre) e := by
+    constructor
+    · apply find_none_iff.mpr
+      intro hm
+      obtain ⟨p, hp, hpe⟩ := List.mem_map.mp hm
+      obtain ⟨q, hq, hs, _⟩ := hprov p (Or.inl hp)
+      exact hpre q hq (by rw [hs, hpe])
+    · apply find_none_iff.mpr
+      intro hm
+      obtain ⟨p, hp, hpe⟩ := List.mem_map.mp hm
+      obtain ⟨q, hq, hs, _⟩ := hprov p (Or.inr hp)
+      exact hpre q hq (by rw [hs, hpe])
+  rw [hrun]
+  exact no_miss_owner cap iv e t0 _ hcap.1 hcap.2 hfresh tag0 mid tag1 t1 hmid ht0 ht hfew
+
+/-- … and along an unbroken CHAIN of presentations: if every further presentation of `e` is inside the
+    bounds relative to the PREVIOUS one (at most `interval` later, fewer than `capacity` distinct other
+    signatures in between), every one of them — arbitrarily many, over arbitrarily long time, under any
+    tags — is answered by the tag rule against the tag of the FIRST one.  The owner never changes. -/
+theorem replay_owner_chain (c : Cache) (e : Sig) (tag0 : Tag) (t0 : Nat) (rounds : List Round)
+    (hfresh : Fresh c e) (hok : ChainOK c.cap c.iv e t0 rounds) :
+    chainAnswers (step c e tag0 t0).1 e rounds = rounds.map (fun r => tagConflict tag0 r.tag) :=
+  owner_chain c.cap c.iv e tag0 rounds _ t0 (inv_after_record c.cap c.iv e t0 c tag0 rfl rfl)
+    (own_after_record e t0 c tag0 hfresh) hok
+
 /-- The window arithmetic.  A unit stamped with minute `m` that the receiver accepts at instants
     `ts1` and `ts2` (nanoseconds of Unix time) under the ±1 minute timestamp rule: the two
     acceptances are less than 180 s (a fortiori less than 240 s) apart, which is below the retention
@@ -169,9 +224,39 @@ example : (step (step (init 4 10 0) 7 [1] 1).1 7 [1] 2).2 = false ∧
     (step (step (init 4 10 0) 7 [1] 1).1 7 [2] 2).2 = true ∧
     (step (step (init 4 10 0) 7 [1] 1).1 7 emptyTag 2).2 = true := by decide
 
-/-- the stored tag is the one of the call that inserted the signature into the generation, not of
-    the latest call: (7,A) (7,B) (7,B) reports the third call although the second carried B -/
+/-- the stored tag is the one of the FIRST sighting (the owner), not of the latest call:
+    (7,A) (7,B) (7,B) reports the third call although the second carried B -/
 example : (step (run (init 4 10 0) [⟨7, [1], 1⟩, ⟨7, [2], 2⟩]) 7 [2] 3).2 = true := by decide
+
+/-- REGRESSION (defect repaired by "fix: replay cache keeps the tag of the first sighting across a
+    rotation"): interval 300, `(7, A)` recorded at 240, rotation by time (364 > 300), the replayer `B`
+    presents `7` at 364 (reported) and AGAIN at 365 and 366: still reported — before the repair the
+    first foreign presentation overwrote the owner's tag and the retries passed; and the owner `A`
+    retransmitting afterwards is NOT reported (before the repair it was, against the stored `B`). -/
+example : answers (init 8 300 0) [⟨7, [65], 240⟩, ⟨7, [66], 364⟩, ⟨7, [66], 365⟩, ⟨7, [66], 366⟩, ⟨7, [65], 367⟩]
+    = [false, true, true, true, false] := by decide
+
+/-- the same after a rotation by SIZE (capacity 2) -/
+example : answers (init 2 1000 0) [⟨7, [65], 1⟩, ⟨8, [65], 2⟩, ⟨7, [66], 3⟩, ⟨7, [66], 4⟩, ⟨7, [65], 5⟩]
+    = [false, false, true, true, false] := by decide
+
+/-- hypotheses of `replay_no_miss_owner_tag` on that history: fresh at the start, instants inside the
+    window, no other signature in between -/
+example : Fresh (init 8 300 0) 7 ∧ FewOthers (init 8 300 0).cap 7 [⟨7, [66], 364⟩, ⟨7, [66], 365⟩] :=
+  ⟨⟨rfl, rfl⟩, (fewOthers_iff _ _ _).mpr (by decide)⟩
+
+/-- a chain that outlives the interval several times (240 → 1100, interval 300): every link is inside
+    the bounds relative to the previous one, the owner `A` stays the owner -/
+example : chainAnswers (step (init 8 300 0) 7 [65] 240).1 7
+      [⟨[], [66], 364⟩, ⟨[⟨8, [66], 500⟩], [66], 600⟩, ⟨[], [65], 880⟩, ⟨[⟨9, [], 1000⟩], [67], 1100⟩]
+    = [true, true, false, true] := by decide
+
+example : ChainOK 8 300 7 240
+    [⟨[], [66], 364⟩, ⟨[⟨8, [66], 500⟩], [66], 600⟩, ⟨[], [65], 880⟩, ⟨[⟨9, [], 1000⟩], [67], 1100⟩] := by
+  refine ⟨by simp, by decide, by decide, (fewOthers_iff _ _ _).mpr (by decide),
+    by simp, by decide, by decide, (fewOthers_iff _ _ _).mpr (by decide),
+    by simp, by decide, by decide, (fewOthers_iff _ _ _).mpr (by decide),
+    by simp, by decide, by decide, (fewOthers_iff _ _ _).mpr (by decide), trivial⟩
 
 /-- the window: minute 29 000 000, a receiver 119 s late and one 59 s early both accept -/
 example : tsAccept 29000000 ((29000000 * 60 + 119) * nsPerSec) ∧ tsAccept 29000000 ((29000000 * 60 - 59) * nsPerSec) := by
